@@ -7,10 +7,20 @@
    [resolve_def params ploc body] lists every variable occurrence in visit
    order with the index k of the declaration of its name it denotes ("the
    k-th declaration of n", parameters first) and lists the redeclarations of
-   visible names with the declaration they shadow.  [vname_of n k] is n for
-   k = 0 and n.(k-1) otherwise. *)
+   visible names with the declaration they shadow.  The resolver is a static
+   environment that is thrown away at the end of every block, loop body and
+   branch; it does not copy how the pass treats a loop body or a branch that is
+   not a block.  [branch_closed body] is the shape of every parsed program (no
+   loop body or branch declares a name outside a block of its own: a
+   declaration is only derivable inside braces and in a `for` header) and the
+   domain of the two theorems that compare the pass with the resolver;
+   C10_branch_closed_is_needed shows they fail outside it.  [vname_of n k] is
+   n for k = 0 and n.(k-1) otherwise.
+
+   The key of the SSA version maps is not transcribed: Gen.SsaKey is read from
+   the text of ssa_impl.rs on every run (lib/props/c10key.py). *)
 From Coq Require Import List NArith.
-Require Import Model.Base Model.Ir Model.UniqueVars Spec.ScopeSpec Proofs.UniqueVarsProofs.
+Require Import Gen.SsaKey Model.Base Model.Ir Model.UniqueVars Spec.ScopeSpec Proofs.ScopeStack Proofs.UniqueVarsProofs Proofs.ScopeBridge.
 Import ListNotations.
 
 (* every occurrence (declaration, assignment target, use) is renamed to the
@@ -18,8 +28,9 @@ Import ListNotations.
    of an undeclared name is left alone *)
 Theorem C10_renaming_preserves_binding : forall params ploc body body' reports,
   ensure_unique_variables params ploc body = Renamed body' reports ->
+  branch_closed body = true ->
   occs body' = map ren_of (fst (resolve_def params ploc body)).
-Proof. exact renaming_preserves_binding. Qed.
+Proof. exact renaming_preserves_binding_spec. Qed.
 Print Assumptions C10_renaming_preserves_binding.
 
 (* distinct declaration occurrences (parameters included) lift to distinct
@@ -37,8 +48,9 @@ Print Assumptions C10_renaming_injective_on_declarations.
    declaration it shadows *)
 Theorem C10_shadowing_reports_exact : forall params ploc body body' reports,
   ensure_unique_variables params ploc body = Renamed body' reports ->
+  branch_closed body = true ->
   reports = map report_of (snd (resolve_def params ploc body)).
-Proof. exact shadowing_reports_exact. Qed.
+Proof. exact shadowing_reports_exact_spec. Qed.
 Print Assumptions C10_shadowing_reports_exact.
 
 (* a parameter list is rejected exactly when a name repeats, and the error
@@ -71,14 +83,51 @@ Theorem C10_identifiers_have_no_dot : forall n, ident_ok n = true -> nodot n.
 Proof. exact ident_ok_nodot. Qed.
 Print Assumptions C10_identifiers_have_no_dot.
 
-(* the key of the SSA version maps (after the repair of D20) identifies the
+(* outside [branch_closed] the pass is NOT the scoping rule: on
+     { var x; if (..) var x; else log(x); log(x); }
+   (not derivable in Circom) the declaration of the then-branch reaches the
+   else-branch and the code after the `if`.  What the pass computes there is the
+   block-only resolver of the simulation proof, Proofs.ScopeStack. *)
+Theorem C10_branch_closed_is_needed : exists body body' reports,
+  branch_closed body = false /\
+  ensure_unique_variables [] (0, 0) body = Renamed body' reports /\
+  occs body' <> map ren_of (fst (resolve_def [] (0, 0) body)) /\
+  occs body' = map ren_of (fst (stk_resolve_def [] (0, 0) body)).
+Proof. exact unbraced_declaration_leaks. Qed.
+Print Assumptions C10_branch_closed_is_needed.
+
+(* a key format -- without a suffix: the name; with one: the name, a literal
+   whose first byte is no identifier character, the suffix -- identifies the
    pair (name, suffix) *)
+Theorem C10_separating_key_formats_injective : forall some none,
+  key_format_ok some none = true ->
+  forall v1 v2,
+  ident_ok (vn_name v1) = true -> ident_ok (vn_name v2) = true ->
+  ssa_key_with some none v1 = ssa_key_with some none v2 ->
+  vn_name v1 = vn_name v2 /\ vn_suffix v1 = vn_suffix v2.
+Proof. exact separating_key_formats_injective. Qed.
+Print Assumptions C10_separating_key_formats_injective.
+
+(* the format Environment::version_key has in the current source is one *)
+Theorem C10_ssa_key_format_separates : key_format_ok version_key_some version_key_none = true.
+Proof. exact ssa_key_format_separates. Qed.
+Print Assumptions C10_ssa_key_format_separates.
+
+(* hence the key of the SSA version maps (after the repair of D20) identifies
+   the pair (name, suffix) *)
 Theorem C10_ssa_keys_injective : forall v1 v2,
-  nodot (vn_name v1) -> nodot (vn_name v2) ->
+  ident_ok (vn_name v1) = true -> ident_ok (vn_name v2) = true ->
   ssa_key v1 = ssa_key v2 ->
   vn_name v1 = vn_name v2 /\ vn_suffix v1 = vn_suffix v2.
 Proof. exact ssa_keys_injective. Qed.
 Print Assumptions C10_ssa_keys_injective.
+
+(* and every access to scoped_versions / global_versions in ssa_impl.rs is keyed
+   by the result of version_key *)
+Theorem C10_ssa_maps_keyed_by_version_key :
+  version_map_accesses <> [] /\ forallb (fun a => snd (snd a)) version_map_accesses = true.
+Proof. exact ssa_maps_keyed_by_version_key. Qed.
+Print Assumptions C10_ssa_maps_keyed_by_version_key.
 
 (* D20 (repaired by the fix: commit): the printed form used as key before did not *)
 Theorem C10_ssa_keys_injective_refuted : exists v1 v2,
@@ -109,13 +158,28 @@ Example C10_witness :
       [Some (lifted_of nx 0); Some (lifted_of nx0 0); Some (lifted_of nx 1)] /\
     ssa_key_old (lifted_of nx0 0) = ssa_key_old (lifted_of nx 1) /\
     ssa_key (lifted_of nx0 0) <> ssa_key (lifted_of nx 1) /\
+    branch_closed d20 = true /\
     Forall nodot ([na] ++ declared d20).
 Proof.
   eexists. split; [vm_compute; reflexivity|]. split; [vm_compute; reflexivity|].
   split; [vm_compute; reflexivity|]. split; [vm_compute; reflexivity|].
-  split; [vm_compute; discriminate|].
+  split; [vm_compute; discriminate|]. split; [reflexivity|].
   repeat constructor; unfold nodot; vm_compute; intuition discriminate.
 Qed.
+
+(* key_format_ok rejects the formats that collide: nothing, `_` or `$` between
+   name and suffix identify x + suffix 0 with the identifiers x0, x_0, x$0 *)
+Definition nx0' : name := [120%N; 48%N].
+Definition nxd0 : name := [120%N; 36%N; 48%N].
+Example C10_colliding_key_formats :
+  key_format_ok [KName; KSuffix] [KName] = false /\
+  key_format_ok [KName; KLit [95%N]; KSuffix] [KName] = false /\
+  key_format_ok [KName; KLit [36%N]; KSuffix] [KName] = false /\
+  ssa_key_with [KName; KSuffix] [KName] (lifted_of nx 1) = ssa_key_with [KName; KSuffix] [KName] (lifted_of nx0' 0) /\
+  ssa_key_with [KName; KLit [95%N]; KSuffix] [KName] (lifted_of nx 1) = ssa_key_with [KName; KLit [95%N]; KSuffix] [KName] (lifted_of nx0 0) /\
+  ssa_key_with [KName; KLit [36%N]; KSuffix] [KName] (lifted_of nx 1) = ssa_key_with [KName; KLit [36%N]; KSuffix] [KName] (lifted_of nxd0 0) /\
+  ident_ok nx = true /\ ident_ok nx0' = true /\ ident_ok nx0 = true /\ ident_ok nxd0 = true.
+Proof. repeat split; vm_compute; reflexivity. Qed.
 
 Example C10_duplicate_parameter :
   ensure_unique_variables [na; nx; na] (11, 18) d20 = Collision (ParamCollision na (11, 18)).
